@@ -29,6 +29,8 @@ def run_check(prop: str, tier: str, repo: str, seed: int, overlay=None, quiet=Fa
     mod = load_rule(prop)
     project = Project(repo, overlay)
     res = mod.run(project, tier)
+    res.stats['normalisation'] = project.normalisation.get('applied', {})
+    res.stats['source_digest'] = project.digest()
     return res, mod
 
 
